@@ -310,7 +310,7 @@ type nativeResult struct {
 }
 
 // runNative executes jobs natively for one package through `go test -overlay`.
-func runNative(pkg string, jobs []nativeJob, harnessNames []string, work string) ([]nativeResult, string, error) {
+func runNative(pkg string, jobs []nativeJob, harnessNames []string, work string, race ...bool) ([]nativeResult, string, error) {
 	ov, pkgName, err := overlayFor(pkg)
 	if err != nil {
 		return nil, "", err
@@ -342,7 +342,11 @@ func runNative(pkg string, jobs []nativeJob, harnessNames []string, work string)
 	os.Remove(outFile)
 	jb, _ := json.Marshal(jobs)
 	os.WriteFile(jobsFile, jb, 0o644)
-	cmd := exec.Command("go", "test", "-vet=off", "-count=1", "-timeout", "600s", "-overlay", ovFile, "-run", "^TestVerifReplay$", "./"+pkg)
+	targs := []string{"test", "-vet=off", "-count=1", "-timeout", "600s", "-overlay", ovFile, "-run", "^TestVerifReplay$"}
+	if len(race) > 0 && race[0] {
+		targs = append(targs, "-race")
+	}
+	cmd := exec.Command("go", append(targs, "./"+pkg)...)
 	cmd.Dir = repoDir
 	cmd.Env = append(os.Environ(), "GOFLAGS=-mod=mod", "GOPROXY=off", "GOSUMDB=off", "GOTOOLCHAIN=local", "VF_JOBS="+jobsFile, "VF_OUT="+outFile)
 	outb, err := cmd.CombinedOutput()
@@ -504,6 +508,9 @@ func checkMain(args []string) int {
 			switch o.Kind {
 			case "violation", "panic", "deadlock", "race":
 				cands = append(cands, cand{o, pkg})
+				if o.Model == nil && o.HasModel {
+					o.Model = map[string]string{}
+				}
 				if o.Model != nil {
 					jobsByPkg[pkg] = append(jobsByPkg[pkg], nativeJob{hr.Harness, o.Model})
 					jobMeta[pkg] = append(jobMeta[pkg], o)
@@ -553,10 +560,21 @@ func checkMain(args []string) int {
 				if len(sel) == 0 {
 					break
 				}
-				nres, _, err := runNative(pkg, sel, byPkg[pkg], filepath.Join(work, "native-"+strings.ReplaceAll(pkg, "/", "_")))
+				// the last attempt for schedule-dependent counterexamples runs under the race detector
+				useRace := att > 0 && att == attempts-1
+				nres, outText, err := runNative(pkg, sel, byPkg[pkg], filepath.Join(work, "native-"+strings.ReplaceAll(pkg, "/", "_")), useRace)
 				if err != nil {
 					broken = append(broken, "native run: "+err.Error())
 					break
+				}
+				if useRace && strings.Contains(outText, "WARNING: DATA RACE") {
+					for _, mt := range selMeta {
+						if o, ok := mt.(*Outcome); ok && o.Nondet {
+							if _, done := confirmed[o]; !done {
+								confirmed[o] = "data race reported by the Go race detector while replaying the harness natively (schedule found by the engine: " + o.Msg + ")"
+							}
+						}
+					}
 				}
 				for i, nr := range nres {
 					switch m := selMeta[i].(type) {
